@@ -35,6 +35,21 @@ type state struct {
 
 // at marks the state to be on node n, for error reporting.
 func (s *state) at(node ast.Node) {
+	// an error is reported at the command (or the clause of a command: {elseif},
+	// {case}, {param}) that was being executed, not at the part of its
+	// expression that failed, which may stand lines further down.
+	switch node.(type) {
+	case *ast.NullNode, *ast.BoolNode, *ast.IntNode, *ast.FloatNode, *ast.StringNode,
+		*ast.GlobalNode, *ast.ListLiteralNode, *ast.MapLiteralNode, *ast.FunctionNode,
+		*ast.DataRefNode, *ast.DataRefKeyNode, *ast.DataRefIndexNode, *ast.DataRefExprNode,
+		*ast.NegateNode, *ast.NotNode, *ast.MulNode, *ast.DivNode, *ast.ModNode,
+		*ast.AddNode, *ast.SubNode, *ast.EqNode, *ast.NotEqNode, *ast.GtNode,
+		*ast.GteNode, *ast.LtNode, *ast.LteNode, *ast.OrNode, *ast.AndNode,
+		*ast.ElvisNode, *ast.TernNode:
+		if s.node != nil {
+			return
+		}
+	}
 	s.node = node
 }
 
@@ -139,6 +154,7 @@ func (s *state) walk(node ast.Node) {
 		// Control flow ----------
 	case *ast.IfNode:
 		for _, cond := range node.Conds {
+			s.at(cond)
 			if cond.Cond == nil || s.eval(cond.Cond).Truthy() {
 				s.walk(cond.Body)
 				break
@@ -172,6 +188,7 @@ func (s *state) walk(node ast.Node) {
 	case *ast.SwitchNode:
 		var switchValue = s.eval(node.Value)
 		for _, caseNode := range node.Cases {
+			s.at(caseNode)
 			for _, caseValueNode := range caseNode.Values {
 				if switchValue.Equals(s.eval(caseValueNode)) {
 					s.walk(caseNode.Body)
@@ -468,6 +485,7 @@ func (s *state) findPluralNode(node *ast.MsgNode, pluralVarName string) *ast.Msg
 }
 
 func (s *state) walkPlural(node *ast.MsgPluralNode) {
+	s.at(node)
 	var val = s.eval(node.Value)
 	var intVal, ok = val.(data.Int)
 	if !ok {
@@ -525,6 +543,7 @@ func (s *state) evalCall(node *ast.CallNode) {
 	for _, param := range node.Params {
 		switch param := param.(type) {
 		case *ast.CallParamValueNode:
+			s.at(param)
 			callData.set(param.Key, s.eval(param.Value))
 		case *ast.CallParamContentNode:
 			callData.set(param.Key, data.String(s.renderBlock(param.Content)))
